@@ -35,7 +35,7 @@ def wrap(rng, t, allow_list=True, weights=None):
 
 class SchemaGen:
     def __init__(self, rng, n_obj=None, n_iface=None, n_union=None, n_enum=None, n_input=None, deprecations=0.0,
-                 id_lists=False, custom_roots=None, odd_type_names=False, args=True):
+                 id_lists=True, custom_roots=None, odd_type_names=False, args=True):
         self.rng = rng
         self.s = Schema()
         self.fcount = 0
